@@ -94,7 +94,20 @@ func symxCover(label string) { symxEvents = append(symxEvents, "cover:"+label) }
 
 func symxKnown(id string, region bool) {}
 
-func symxKnownFor(id string, label string, region bool) {}
+func symxKnownFor(id string, label string, region bool) {
+	if region && symxHasNative(label) {
+		symxEvents = append(symxEvents, "known:"+id+":"+label)
+	}
+}
+
+func symxHasNative(label string) bool {
+	for i := 0; i+8 <= len(label); i++ {
+		if label[i:i+8] == ".native." {
+			return true
+		}
+	}
+	return false
+}
 
 func symxPermuteMaps(on bool) {}
 
